@@ -20,6 +20,7 @@ cd "$(dirname "$0")"
 /venv/bin/python harness/py2coq_updarg.py "${VERIF_REPO:-/repo}/tinyflux/database.py" coq/gen/UpdArgGen.v || true
 /venv/bin/python harness/py2coq_memstore.py "${VERIF_REPO:-/repo}/tinyflux/storages.py" coq/gen/MemStoreGen.v || true
 /venv/bin/python harness/py2coq_updater.py "${VERIF_REPO:-/repo}/tinyflux/database.py" coq/gen/UpdaterGen.v || true
+/venv/bin/python harness/py2coq_gates.py "${VERIF_REPO:-/repo}/tinyflux/database.py" coq/gen/GatesGen.v || true
 cd coq
 coq_makefile -f _CoqProject -o Makefile
 timeout 3000 make -j16
